@@ -61,6 +61,26 @@ func NewSession(info Info, sessionID []byte, pl *pool.Pool, auxInfo ...hash.Writ
 		return nil, fmt.Errorf("session: threshold %d is invalid for number of parties %d", info.Threshold, n)
 	}
 
+	// a party's identifier determines the point at which its share is evaluated:
+	// it must not map to zero, and no two identifiers may map to the same scalar.
+	if info.Group != nil {
+		seen := make(map[string]party.ID, len(partyIDs))
+		for _, id := range partyIDs {
+			x := id.Scalar(info.Group)
+			if x.IsZero() {
+				return nil, fmt.Errorf("session: party ID %q maps to the zero scalar", id)
+			}
+			xBytes, err := x.MarshalBinary()
+			if err != nil {
+				return nil, fmt.Errorf("session: %w", err)
+			}
+			if other, ok := seen[string(xBytes)]; ok {
+				return nil, fmt.Errorf("session: party IDs %q and %q map to the same scalar", other, id)
+			}
+			seen[string(xBytes)] = id
+		}
+	}
+
 	var err error
 	h := hash.New()
 
